@@ -628,6 +628,12 @@ func (vc *VC) constTerm(t types.Type, v constant.Value) Term {
 // script renders the query for one obligation: everything asserted before
 // position upto, the path condition, and the negated goal.
 func (vc *VC) script(upto int, path Term, goal Term, wantModel bool) string {
+	return vc.scriptOpt(upto, path, goal, wantModel, false)
+}
+
+// scriptOpt: with dropQuant, assertions containing quantifiers are left out (used for
+// cover queries only: a weaker context, so "sat" is a heuristic vacuity guard, never a proof step).
+func (vc *VC) scriptOpt(upto int, path Term, goal Term, wantModel bool, dropQuant bool) string {
 	var b strings.Builder
 	if wantModel {
 		b.WriteString("(set-option :produce-models true)\n")
@@ -638,6 +644,9 @@ func (vc *VC) script(upto int, path Term, goal Term, wantModel bool) string {
 		b.WriteByte('\n')
 	}
 	for _, a := range vc.asserts[:upto] {
+		if dropQuant && (strings.Contains(a, "(forall ") || strings.Contains(a, "(exists ")) {
+			continue
+		}
 		b.WriteString("(assert ")
 		b.WriteString(a)
 		b.WriteString(")\n")
